@@ -42,6 +42,17 @@ CORPUS = [
      "kind": "corpus:natsort"},
     {"segs": [0], "groups": [{"id": "g", "members": [0], "includes": ["nope"], "nlex": None}],
      "kind": "corpus:missing-group"},
+    # two groups hold ONE members list object (ext.members = dend.members); a third one of another cell too
+    {"segs": [0, 1, 2, 3], "kind": "corpus:shared-members-list",
+     "groups": [{"id": "prox", "members": [1, 2], "includes": [], "nlex": None},
+                {"id": "dend", "members": [2, 3, 1, 3], "includes": ["prox"], "nlex": None},
+                {"id": "ext", "members": [2, 3, 1, 3], "includes": [], "nlex": None}],
+     "shares": [{"kind": "members", "from": 1, "to": 2}], "optimise_one": "dend", "other_cell": [1]},
+    {"segs": [0, 1, 2, 3], "kind": "corpus:shared-includes-list",
+     "groups": [{"id": "p", "members": [1], "includes": [], "nlex": None}, {"id": "q", "members": [2], "includes": [], "nlex": None},
+                {"id": "a", "members": [1, 3], "includes": ["q", "p", "q"], "nlex": None},
+                {"id": "b", "members": [2, 0, 0], "includes": ["q", "p", "q"], "nlex": None}],
+     "shares": [{"kind": "includes", "from": 2, "to": 3}], "optimise_one": "b"},
     {"segs": [0, 1, 2], "groups": [{"id": "d1", "members": [1], "includes": [], "nlex": None},
                                    {"id": "d01", "members": [2], "includes": [], "nlex": None},
                                    {"id": "top", "members": [0, 1], "includes": ["d1", "d01", "d1"], "nlex": None}],
@@ -77,8 +88,8 @@ def gen_case(rng, big=False):
         for i in incs:
             cov |= closure.get(i, set(segs))
         mem = []
-        pool = segs or [0]
-        for _ in range(rng.choice([0, 1, 2, 3, 3, 4, 6])):
+        pool = segs
+        for _ in range(rng.choice([0, 1, 2, 3, 3, 4, 6]) if segs else 0):   # members are segments of the cell
             if cov and rng.random() < 0.45:
                 mem.append(rng.choice(sorted(cov)))  # a member an include supplies
             else:
@@ -174,10 +185,42 @@ def predicate(case, res):
         elif set(r) != want[g["id"]]:
             bad.append(("C14:resolve-not-closure", "resolved set of %r is not the transitive closure" % g["id"],
                         sorted(want[g["id"]]), r))
+    def ordered_bad(lst, when):
+        for g, o in zip(groups, lst or []):
+            w = sorted(want[g["id"]])
+            if "ids" not in o:
+                bad.append(("C14:ordered-segments-raises", "get_ordered_segments_in_groups([%r]) raised %s" % (g["id"], when), w, o))
+                continue
+            forms = [o["ids"], o["ids_cum"], o["ids_path"], o["ids_both"]]
+            if any(len(set(f)) != len(f) for f in forms) or o["n_cum"] > len(w) or o["n_cum_both"] > len(w):
+                bad.append(("C14:ordered-segments-lists-a-segment-twice",
+                            "get_ordered_segments_in_groups([%r]) %s lists a segment more than once (or has a cumulative length "
+                            "per duplicate)" % (g["id"], when), w, o))
+            elif any(f != w for f in forms) or o["n_cum"] != len(w) or o["n_cum_both"] != len(w) or o["path_keys"] != w:
+                bad.append(("C14:ordered-segments-not-the-closure", "get_ordered_segments_in_groups([%r]) %s is not the group's "
+                            "segments by ascending id" % (g["id"], when), w, o))
+    ordered_bad(res.get("ordered"), "before optimising")
+    one = res.get("after_one")
+    if isinstance(one, list) and case.get("optimise_one") is not None:
+        for g0, g1 in zip(groups, one):
+            if closure(segs, one, g1["id"]) != want[g0["id"]]:
+                bad.append(("C14:optimise-one-group-changes-resolved-set", "optimise_segment_group(%r) changed the segments of %r "
+                            "(by the closure over the rows read back)" % (case["optimise_one"], g0["id"]), sorted(want[g0["id"]]), g1))
+            elif g0["id"] != case["optimise_one"] and (g0["members"] != g1["members"] or g0["includes"] != g1["includes"]):
+                bad.append(("C14:optimise-one-group-changes-another-group", "optimise_segment_group(%r) changed the rows of group %r"
+                            % (case["optimise_one"], g0["id"]), g0, g1))
+    if "other_before" in res and res.get("other_after") != res["other_before"]:
+        bad.append(("C14:optimise-changes-a-group-of-another-cell", "optimising changed a group of ANOTHER cell that holds the same list object",
+                    res["other_before"], res.get("other_after")))
     opt = res["opt"]
     if not isinstance(opt, list):
         bad.append(("C14:optimise-raises", "optimise_segment_groups raised", "returns", opt))
         return bad
+    ordered_bad(res.get("ordered_after"), "after optimising")
+    for g0, g in zip(groups, opt):
+        if closure(segs, opt, g["id"]) != want[g0["id"]]:
+            bad.append(("C14:optimise-changes-resolved-set", "the segments of %r (closure over the rows read back) changed by optimising"
+                        % g0["id"], sorted(want[g0["id"]]), g))
     for g, r in zip(groups, res["resolved_after"]):
         if not isinstance(r, list) or set(r) != want[g["id"]]:
             bad.append(("C14:optimise-changes-resolved-set", "resolved set of %r changed by optimising" % g["id"],
@@ -499,11 +542,18 @@ def q_groups(r):
     return {"NoGroup": "OGNoGroup", "NoSuchGroup": "OGNoSuchGroup", "Recursion": "OGRecursion"}.get(e, "OGOther")
 
 
+def q_ordered(l):
+    if l is None:
+        return "None"
+    return "(Some %s)" % coq_list([q_res(x["ids"] if "ids" in x else x) for x in l])
+
+
 def q_case(c, r):
-    return "(mkCase %s %s %s %s %s %s %s)" % (
+    return "(mkCase %s %s %s %s %s %s %s %s %s)" % (
         coq_list([coq_z(s) for s in c["segs"]]), coq_list([q_group(g) for g in c["groups"]]),
         coq_list([q_res(x) for x in r["resolved"]]), q_res(r["all"]), q_groups(r["opt"]),
-        coq_list([q_res(x) for x in r["resolved_after"]]), q_groups(r["opt2"]))
+        coq_list([q_res(x) for x in r["resolved_after"]]), q_groups(r["opt2"]),
+        q_ordered(r.get("ordered")), q_ordered(r.get("ordered_after") if isinstance(r["opt"], list) else None))
 
 
 HEADER = ("From Coq Require Import String List ZArith Bool.\nFrom LNML Require Import Model.Groups.\n"
@@ -543,8 +593,9 @@ def parse_idx(s):
 
 def strip(c):
     d = {"segs": c["segs"], "groups": c["groups"]}
-    if c.get("via_file"):
-        d["via_file"] = True
+    for k in ("via_file", "shares", "ordered", "optimise_one", "other_cell"):
+        if c.get(k) is not None and c.get(k) is not False:
+            d[k] = c[k]
     return d
 
 
@@ -617,6 +668,27 @@ def run(ck):
         if c["segs"] and (c["kind"].endswith(":from-file") or (not c["kind"].startswith("corpus") and ck.rng.random() < 0.25)):
             c["via_file"] = True
             ck.tally("cell-read-from-file")
+    for c in cases:
+        if well_formed(c) and all(m in c["segs"] for g in c["groups"] for m in g["members"]):
+            c["ordered"] = True        # get_ordered_segments_in_groups is asked for every group, before and after
+        if c.get("via_file") or c["kind"].startswith("corpus") or not well_formed(c) or len(c["groups"]) < 2:
+            continue
+        if ck.rng.random() < 0.3:
+            # two (or three) groups hold one list object
+            gs = c["groups"]
+            i = ck.rng.choice([k for k, g in enumerate(gs) if g["includes"]] or list(range(len(gs))))
+            tos = ck.rng.sample([k for k in range(len(gs)) if k != i], min(len(gs) - 1, ck.rng.choice([1, 1, 2])))
+            kind = "members" if ck.rng.random() < 0.75 else "includes"
+            trial = copy.deepcopy(c)
+            for j in tos:
+                trial["groups"][j][kind] = list(trial["groups"][i][kind])
+            if well_formed(trial):
+                c["groups"] = trial["groups"]
+                c["shares"] = [{"kind": kind, "from": i, "to": j} for j in tos]
+                c["optimise_one"] = gs[ck.rng.choice([i] + tos)]["id"] if ck.rng.random() < 0.7 else None
+                if ck.rng.random() < 0.4:
+                    c["other_cell"] = [i]
+                ck.tally("groups-sharing-a-list-object")
     nh = ck.n(160, 2500)
     hists = [copy.deepcopy(h) for h in HISTORY_CORPUS]
     while len(hists) < nh:
